@@ -4,7 +4,7 @@
    that frame number and that value (no forgery, no alteration; loss, duplication, delay and reordering are the
    endpoint's business: EndpointLink.v delivers each frame once, in order) - to conclude that the two games used
    the same input for h at every frame both have confirmed and simulated. *)
-From GGRS Require Import Base Consts Queue QueueProofs Sync P2P Session SessionProofs SessionSparse SessionProgress SessionSparse2 SessionTimeline SessionTimelineSparse.
+From GGRS Require Import Base Consts Queue QueueProofs Sync P2P Session SessionProofs SessionSparse SessionProgress SessionSparse2 SessionTimeline SessionTimelineSparse SessionLockstep.
 From Coq Require Import ZifyBool ZifyNat ZifyN.
 Open Scope Z_scope.
 
@@ -14,8 +14,13 @@ Hypothesis predict_idem : forall x, predict (predict x) = predict x.
 Hypothesis predict_zero : predict 0 = 0.
 
 (* one session, either saving mode *)
+(* a session's mode: rollback (window >= 1, either saving mode) or lockstep (window 0; the builder's sparse flag is
+   irrelevant there - nothing is ever saved - and the model's lockstep sessions are started with it off) *)
+Definition mode_ok (sparse : bool) (w d : Z) : Prop :=
+  (1 <= w /\ w + d + 3 <= QLEN) \/ (w = 0 /\ sparse = false /\ d + 4 <= QLEN).
+
 Theorem sends_and_receipts_any : forall (sparse : bool) ops n w d kinds eps nspec p outs,
-  1 <= w -> 0 <= d -> w + d + 3 <= QLEN -> 0 < n -> Z.of_nat (length kinds) = n -> players_only kinds ->
+  mode_ok sparse w d -> 0 <= d -> 0 < n -> Z.of_nat (length kinds) = n -> players_only kinds ->
   srun_in predict (session_start n w sparse d kinds eps nspec) ops = Ok (p, outs) ->
   exists g gs, exec_outs w (game0 w) outs = Some g /\ QSg sparse w d p gs /\ gframe g = s_current (ps_sync p) /\
     (forall h hist low f, nth_error gs h = Some (hist, low) ->
@@ -28,23 +33,28 @@ Theorem sends_and_receipts_any : forall (sparse : bool) ops n w d kinds eps nspe
       nth_error gs (Z.to_nat pl) = Some gh -> 0 <= f < hlen (fst gh) -> In (SRemote pl f (hval (fst gh) f)) ops) /\
     ps_kinds p = kinds /\ OB p gs.
 Proof.
-  intros [|].
-  - exact (sparse_sends_and_receipts predict predict_idem predict_zero).
-  - exact (sends_and_receipts predict predict_idem predict_zero).
+  intros sparse ops n w d kinds eps nspec p outs [(Hw & Hc)|(-> & -> & Hc)] Hd Hn Hl Hp H.
+  - destruct sparse.
+    + exact (sparse_sends_and_receipts predict predict_idem predict_zero ops n w d kinds eps nspec p outs Hw Hd Hc Hn Hl Hp H).
+    + exact (sends_and_receipts predict predict_idem predict_zero ops n w d kinds eps nspec p outs Hw Hd Hc Hn Hl Hp H).
+  - destruct (lockstep_sends_and_receipts predict predict_idem predict_zero ops n d kinds eps nspec p outs Hd Hc Hn Hl Hp H)
+      as (g & gs & Ex & HQS & Hfr & Hheld & Hrest).
+    exists g, gs. split; [exact Ex|]. split; [exact HQS|]. split; [exact Hfr|]. split; [|exact Hrest].
+    intros h hist low f Eg Hf Hfc. apply (Hheld h hist low f Eg). lia.
 Qed.
 
 (* the session's own buffers after any run inside the space: every input queue holds between 0 and
    INPUT_QUEUE_LENGTH inputs, nothing is left in outgoing_local_inputs between calls, and every frame a local
    player's queue holds has been handed to the remote endpoints *)
 Theorem session_buffers_bounded : forall (sparse : bool) ops n w d kinds eps nspec p outs,
-  1 <= w -> 0 <= d -> w + d + 3 <= QLEN -> 0 < n -> Z.of_nat (length kinds) = n -> players_only kinds ->
+  mode_ok sparse w d -> 0 <= d -> 0 < n -> Z.of_nat (length kinds) = n -> players_only kinds ->
   srun_in predict (session_start n w sparse d kinds eps nspec) ops = Ok (p, outs) ->
   Forall (fun q => 0 <= q_length q <= QLEN) (s_queues (ps_sync p)) /\
   (ps_remotes p <> [] -> local_handles p <> [] -> ps_outgoing p = []) /\
   exists gs, QSg sparse w d p gs /\ OB p gs.
 Proof.
-  intros sparse ops n w d kinds eps nspec p outs Hw Hd Hc Hn Hl Hp H.
-  destruct (sends_and_receipts_any sparse ops n w d kinds eps nspec p outs Hw Hd Hc Hn Hl Hp H)
+  intros sparse ops n w d kinds eps nspec p outs Hm Hd Hn Hl Hp H.
+  destruct (sends_and_receipts_any sparse ops n w d kinds eps nspec p outs Hm Hd Hn Hl Hp H)
     as (g & gs & _ & HQS & _ & _ & _ & _ & _ & _ & HB).
   split; [|split; [intros Hr Hlo; exact (proj1 (HB Hr Hlo))|exists gs; split; assumption]].
   pose proof (qs_qs _ _ _ _ HQS) as HQ. unfold QsI in HQ.
@@ -62,7 +72,7 @@ Definition delivered_was_sent (h : Z) (outsA : list (pout * apires)) (opsB : lis
 Theorem two_sessions_agree :
   forall (sparseA sparseB : bool) (opsA opsB : list sop) (n wA wB dA dB : Z) (kindsA kindsB : list pkind)
          (epsA epsB : list (list Z)) (nspecA nspecB : nat) (pA pB : p2p) (outsA outsB : list (pout * apires)),
-  1 <= wA -> 0 <= dA -> wA + dA + 3 <= QLEN -> 1 <= wB -> 0 <= dB -> wB + dB + 3 <= QLEN ->
+  mode_ok sparseA wA dA -> 0 <= dA -> mode_ok sparseB wB dB -> 0 <= dB ->
   0 < n -> Z.of_nat (length kindsA) = n -> Z.of_nat (length kindsB) = n -> players_only kindsA -> players_only kindsB ->
   srun_in predict (session_start n wA sparseA dA kindsA epsA nspecA) opsA = Ok (pA, outsA) ->
   srun_in predict (session_start n wB sparseB dB kindsB epsB nspecB) opsB = Ok (pB, outsB) ->
@@ -74,10 +84,10 @@ Theorem two_sessions_agree :
         gvalL (g_hist gA) f (Z.to_nat h) = gvalL (g_hist gB) f (Z.to_nat h).
 Proof.
   intros sparseA sparseB opsA opsB n wA wB dA dB kindsA kindsB epsA epsB nspecA nspecB pA pB outsA outsB
-         HwA HdA HcA HwB HdB HcB Hn HlA HlB HpA HpB HA HB.
-  destruct (sends_and_receipts_any sparseA opsA n wA dA kindsA epsA nspecA pA outsA HwA HdA HcA Hn HlA HpA HA)
+         HmA HdA HmB HdB Hn HlA HlB HpA HpB HA HB.
+  destruct (sends_and_receipts_any sparseA opsA n wA dA kindsA epsA nspecA pA outsA HmA HdA Hn HlA HpA HA)
     as (gA & gsA & ExA & HQA & _ & HheldA & HroundsA & _ & _ & HkA & _).
-  destruct (sends_and_receipts_any sparseB opsB n wB dB kindsB epsB nspecB pB outsB HwB HdB HcB Hn HlB HpB HB)
+  destruct (sends_and_receipts_any sparseB opsB n wB dB kindsB epsB nspecB pB outsB HmB HdB Hn HlB HpB HB)
     as (gB & gsB & ExB & HQB & _ & HheldB & _ & _ & HcvB & HkB & _).
   exists gA, gB. split; [exact ExA|]. split; [exact ExB|].
   intros h e Hh HlocA HremB Hlink f HfA HcfA HfB HcfB.
@@ -99,8 +109,8 @@ Proof.
     apply nth_error_Some. congruence. }
   destruct (nth_error gsA (Z.to_nat h)) as [[histA lowA]|] eqn:EgA; [|apply nth_error_None in EgA; lia].
   unfold rounds_ok in HroundsA. rewrite Forall_forall in HroundsA.
-  destruct (HroundsA m Hm) as (f' & Hf' & Hr). destruct (Hr h (histA, lowA) HinA EgA) as (HltA & HmA). cbn [fst] in HltA, HmA.
-  rewrite Hmh in HmA. injection HmA as -> Hv.
+  destruct (HroundsA m Hm) as (f' & Hf' & Hr). destruct (Hr h (histA, lowA) HinA EgA) as (HltA & HmA0). cbn [fst] in HltA, HmA0.
+  rewrite Hmh in HmA0. injection HmA0 as -> Hv.
   destruct (HheldA _ _ _ f' EgA HfA HcfA) as (_ & HvA).
   rewrite HvA, HvB. symmetry. exact Hv.
 Qed.
